@@ -1501,7 +1501,9 @@ def unroll_new_table_loops(fn: ast.AST, base_locals) -> int:
                 if isinstance(t, ast.Name)]
             arity = len(tg.elts) if isinstance(tg, (ast.Tuple, ast.List)) \
                 else 0
-            if len(tnames) != max(arity, 1):
+            if len(tnames) != max(arity, 1) or arity < 2:
+                # only row tables (`for a, b in ((..), (..))`): a loop over
+                # plain values is an ordinary loop the rules can read
                 continue
             rows = []
             for e in st.iter.elts:
